@@ -21,6 +21,7 @@ import Gonuts.Model.TokenWire
                                                            | (err (b64err N)) | (payload "hex")
     token.serialize token                       -> "cashuA…" / "cashuB…" with the modelled json/cbor encoders (Model.TokenWire)
     token.marshal token                         -> "hex" of the modelled json.Marshal / cbor.Marshal output
+    token.parse-json "hex" / token.parse-cbor "hex" -> (some token) | none: the canonical parsers of Model.TokenWire
     token.check-v3 token                        -> (ok) | (err invalid-v3): the check of DecodeTokenV3 after Unmarshal
     token.front-old "hexbytes"                  -> as token.front, for the code before the F9 fix
     token.hexdec "s" -> (ok "hex") | (err odd) | (err byte N)     token.hexenc "hex" -> "s"
@@ -186,6 +187,14 @@ def handle (cmd : String) (args : List Sexp) : Option Sexp :=
     match ← token? t with
     | .v3 t3 => some (ofBytes (Wire.jsonTokenV3 t3))
     | .v4 t4 => some (ofBytes (Wire.cborTokenV4 t4))
+  | "token.parse-json", [b] => do
+    match Wire.jsonParse (← bytes? b) with
+    | some t => some (.list [.atom "some", ofToken (.v3 t)])
+    | none => some (.atom "none")
+  | "token.parse-cbor", [b] => do
+    match Wire.cborParse (← bytes? b) with
+    | some t => some (.list [.atom "some", ofToken (.v4 t)])
+    | none => some (.atom "none")
   | "token.check-v3", [t] => do
     match ← token? t with
     | .v3 t3 =>
